@@ -10,9 +10,9 @@ def c04(tier):
     q = tier == 'quick'
     # single contexts x arity pairs x cycle length: 21*10*10*3 = 6300 programs; compositions beyond
     plan = [
-        {'kind': 'tail', 'count': 60 if q else 6300, 'cfgs': 'plain', 'args': ['mode=enum', 'stride=%d' % (103 if q else 1)],
+        {'kind': 'tail', 'count': 60 if q else 2100, 'cfgs': 'plain', 'args': ['mode=enum', 'stride=%d' % (103 if q else 3)],
          'shards': 1 if q else 14},
-        {'kind': 'tail', 'count': 20 if q else 2000, 'cfgs': 'plain', 'args': ['mode=random'], 'shards': 1 if q else 6},
+        {'kind': 'tail', 'count': 20 if q else 1200, 'cfgs': 'plain', 'args': ['mode=random'], 'shards': 1 if q else 6},
     ]
 
     def relevant(mm, sess, runs):
